@@ -273,7 +273,10 @@ def run_task(task):
             # reachability witnesses and sampled witness paths, validated natively
             want = first or rng.random() < wit_rate or any(g not in res["goal_witness"] for g in goals)
             if want and opts.get("validate", True):
-                vals = e_.nice_model()
+                if eo.get("nice", True):
+                    vals = e_.nice_model()
+                else:
+                    vals = e_.model_values() if e_.check() == "sat" else None
                 if vals is not None:
                     model = e_.last_model
                     dg = H.digest(ctx, shape, obs)
